@@ -17,6 +17,8 @@ import (
 	"time"
 
 	"github.com/ipfs/go-cid"
+	"github.com/ipld/go-ipld-prime"
+	"github.com/ipld/go-ipld-prime/codec/dagcbor"
 
 	"github.com/ucan-wg/go-ucan/pkg/command"
 	"github.com/ucan-wg/go-ucan/pkg/container"
@@ -379,9 +381,102 @@ func canonTokens(w *world, algClass string, seed int64) ([]canonTok, error) {
 	return out, nil
 }
 
+// containerPairs: the CID a container reader reports next to a token - in its iterators as in its lookups - is the
+// content address of THAT token's sealed bytes: 8 delegations and 8 invocations in one container, every format.
+func containerPairs(rep *Report) error {
+	w := newWorld(envSeed(), []string{"ed25519"})
+	iss, err := w.principal("I")
+	if err != nil {
+		return err
+	}
+	type ent struct {
+		sealed []byte
+		fields map[string]ipld.Node
+	}
+	byCid := map[cid.Cid]ent{}
+	cw := container.NewWriter()
+	for i := 0; i < 8; i++ {
+		d, err := delegation.Root(iss.id, iss.id, command.Command(fmt.Sprintf("/pair/%d", i)), policy.Policy{}, delegation.WithMeta("n", i))
+		if err != nil {
+			return err
+		}
+		v, err := invocation.New(iss.id, iss.id, command.Command(fmt.Sprintf("/pair/%d", i)), []cid.Cid{missingCid(i)}, invocation.WithArgument("n", i))
+		if err != nil {
+			return err
+		}
+		for _, t := range []token.Token{d, v} {
+			b, id, err := t.ToSealed(iss.priv)
+			if err != nil {
+				return err
+			}
+			_, f, _ := fieldsOf(t)
+			byCid[id] = ent{b, f}
+			cw.AddSealed(id, b)
+		}
+	}
+	for _, f := range []string{"car", "carb64", "cbor", "cborb64"} {
+		var data []byte
+		var rd container.Reader
+		switch f {
+		case "car":
+			if data, err = cw.ToCar(); err == nil {
+				rd, err = container.FromCar(data)
+			}
+		case "carb64":
+			if data, err = cw.ToCarBase64(); err == nil {
+				rd, err = container.FromCarBase64(data)
+			}
+		case "cbor":
+			if data, err = cw.ToCbor(); err == nil {
+				rd, err = container.FromCbor(data)
+			}
+		default:
+			if data, err = cw.ToCborBase64(); err == nil {
+				rd, err = container.FromCborBase64(data)
+			}
+		}
+		if err != nil {
+			rep.violation(map[string]any{"fmt": f}, "readable", err.Error(), "a container of 16 honest tokens cannot be read")
+			continue
+		}
+		check := func(api string, id cid.Cid, t token.Token) {
+			rep.Evaluations++
+			e, ok := byCid[id]
+			if !ok {
+				rep.violation(map[string]any{"fmt": f, "api": api}, "a CID of a token that was added", id.String(), api+" reports a CID nobody added")
+				return
+			}
+			_, got, err := fieldsOf(t)
+			if err != nil {
+				return
+			}
+			if why := sameFields(got, e.fields); why != "" {
+				rep.violation(map[string]any{"fmt": f, "api": api, "cid": id.String()}, "the token whose sealed bytes have this CID", why,
+					api+" pairs a CID with a token whose sealed bytes have another CID")
+			}
+		}
+		for id, d := range rd.GetAllDelegations() {
+			check("GetAllDelegations", id, d)
+			if d2, err := rd.GetDelegation(id); err == nil {
+				check("GetDelegation", id, d2)
+			}
+		}
+		for id, v := range rd.GetAllInvocations() {
+			check("GetAllInvocations", id, v)
+			if t2, err := rd.GetToken(id); err == nil {
+				check("GetToken", id, t2)
+			}
+		}
+	}
+	return nil
+}
+
 func init() {
 	replays["canon"] = func(cases []json.RawMessage, rep *Report) error {
 		w := newWorld(envSeed(), fastAlgs)
+		if err := containerPairs(rep); err != nil {
+			return err
+		}
 		toksBy := map[string][]canonTok{}
 		agreed := map[string]bool{}
 		for _, raw := range cases {
@@ -415,6 +510,19 @@ func init() {
 						}
 					}
 					chk("ToSealed", t.id, nil)
+					// what the library seals IS canonical: decoding and re-encoding it gives the same bytes (shortest heads,
+					// sorted keys), whichever API wrote it
+					canonicalOut := func(api string, b []byte) {
+						n, err := ipld.Decode(b, dagcbor.Decode)
+						if err != nil {
+							return
+						}
+						if b2, err := ipld.Encode(n, dagcbor.Encode); err == nil && !bytes.Equal(b, b2) {
+							rep.violation(map[string]any{"api": api, "token": t.typ + "/" + t.alg, "sealed_bytes": len(b), "reencoded_bytes": len(b2)}, "canonical DAG-CBOR", "another encoding of the same data",
+								api+" writes sealed bytes that are not the canonical encoding")
+						}
+					}
+					canonicalOut("ToSealed", t.sealed)
 					// sealing the same token again (randomized signature schemes give other bytes): every call
 					// reports the CID of the bytes it returns
 					for k := 2; k <= 4; k++ {
@@ -442,6 +550,7 @@ func init() {
 						} else if !bytes.Equal(wid.Bytes(), manualCid(got)) {
 							rep.violation(map[string]any{"api": "ToSealedWriter", "writer": sk.name, "token": t.typ + "/" + t.alg}, "CID of the bytes written", wid.String(),
 								"ToSealedWriter ("+sk.name+") reports a CID that is not the CID of what it wrote")
+						} else if canonicalOut("ToSealedWriter ("+sk.name+")", got); false {
 						} else if _, rid, rerr := token.FromSealed(got); rerr != nil || rid != wid {
 							rep.violation(map[string]any{"api": "ToSealedWriter", "writer": sk.name, "token": t.typ + "/" + t.alg}, "written bytes unseal under the reported CID", fmt.Sprint(rid, rerr),
 								"what ToSealedWriter ("+sk.name+") wrote does not unseal under the CID it reported")
